@@ -1,57 +1,54 @@
-(* C06 for TSP -- check_solution_validity (sorted(actions) == arange(len(actions))) against the problem definition. *)
+(* C06 for TSP -- check_solution_validity (len(actions) == number of nodes and sorted(actions) == arange(len(actions)))
+   against the problem definition.  The length test was added by the fix 5d5f57a (known_findings.json: fixed
+   "tsp/default: checker-accepts-tour-of-wrong-length"); soundness is now stated WITHOUT any hypothesis on the length
+   of the action list. *)
 From Coq Require Import ZArith List Bool.
 From RL4CO Require Import Base.Num Base.EnvSig Spec.Tours Env.TourCore Env.TSP Env.TSPProofs.
 Import ListNotations.
 Open Scope Z_scope.
 
-(* every tour (each city exactly once) is accepted *)
+(* every tour (each node exactly once) is accepted *)
 Theorem C06_tsp_checker_complete :
   forall (i : tsp_inst) (acts : list nat),
     (forall j, (j < tsp_n i)%nat -> occ j acts = 1%nat) -> (forall a, In a acts -> (a < tsp_n i)%nat) ->
-    tsp_checker acts = true.
+    tsp_checker i acts = true.
 Proof. exact tsp_checker_complete_unfolded. Qed.
 Print Assumptions C06_tsp_checker_complete.
 
-(* accepted action lists OF THE INSTANCE'S LENGTH are tours *)
+(* EVERY accepted action list, of whatever length, is a tour of the instance: each node 0..n-1 exactly once *)
 Theorem C06_tsp_checker_sound :
   forall (i : tsp_inst) (acts : list nat),
-    length acts = tsp_n i -> tsp_checker acts = true ->
+    tsp_checker i acts = true ->
     (forall j, (j < tsp_n i)%nat -> occ j acts = 1%nat) /\ (forall a, In a acts -> (a < tsp_n i)%nat).
 Proof. exact tsp_checker_sound. Qed.
 Print Assumptions C06_tsp_checker_sound.
 
-(* what acceptance means for an action list of ANY length L: a permutation of 0..L-1 *)
-Theorem C06_tsp_checker_sound_any_length :
-  forall (acts : list nat), tsp_checker acts = true ->
-    (forall j, (j < length acts)%nat -> occ j acts = 1%nat) /\ (forall a, In a acts -> (a < length acts)%nat).
-Proof. exact tsp_checker_sound_general. Qed.
-Print Assumptions C06_tsp_checker_sound_any_length.
+Theorem C06_tsp_checker_rejects_wrong_length :
+  forall (i : tsp_inst) (acts : list nat), length acts <> tsp_n i -> tsp_checker i acts = false.
+Proof. exact tsp_checker_rejects_wrong_length. Qed.
+Print Assumptions C06_tsp_checker_rejects_wrong_length.
 
 Theorem C06_tsp_checker_rejects_missing :
   forall (i : tsp_inst) (acts : list nat) (j : nat),
-    length acts = tsp_n i -> (j < tsp_n i)%nat -> ~ In j acts -> tsp_checker acts = false.
+    (j < tsp_n i)%nat -> ~ In j acts -> tsp_checker i acts = false.
 Proof. exact tsp_checker_rejects_missing. Qed.
 Print Assumptions C06_tsp_checker_rejects_missing.
 
 Theorem C06_tsp_checker_rejects_duplicate :
-  forall (acts : list nat) (j : nat), (2 <= occ j acts)%nat -> tsp_checker acts = false.
+  forall (i : tsp_inst) (acts : list nat) (j : nat), (2 <= occ j acts)%nat -> tsp_checker i acts = false.
 Proof. exact tsp_checker_rejects_duplicate. Qed.
 Print Assumptions C06_tsp_checker_rejects_duplicate.
 
 Theorem C06_tsp_checker_rejects_out_of_range :
   forall (i : tsp_inst) (acts : list nat) (a : nat),
-    length acts = tsp_n i -> In a acts -> (tsp_n i <= a)%nat -> tsp_checker acts = false.
+    In a acts -> (tsp_n i <= a)%nat -> tsp_checker i acts = false.
 Proof. exact tsp_checker_rejects_out_of_range. Qed.
 Print Assumptions C06_tsp_checker_rejects_out_of_range.
 
-(* REFUTED without the length hypothesis: the checker never looks at the number of cities, so a "tour" that omits
-   the highest-numbered city is accepted (3 cities, actions [1; 0]) *)
-Theorem C06_tsp_checker_truncated_refuted :
-  exists (i : tsp_inst) (acts : list nat),
-    tsp_wfb i = true /\ tsp_checker acts = true /\ ~ tsp_feasible i acts /\ ~ In 2%nat acts /\ (2 < tsp_n i)%nat.
-Proof. exact tsp_checker_truncated_refuted. Qed.
-Print Assumptions C06_tsp_checker_truncated_refuted.
-
+(* non-vacuity, including the witness of the repaired defect: 3 nodes, actions [1; 0] (a permutation of 0..len-1 that
+   never visits node 2) was accepted before the fix and is rejected now *)
 Example C06_tsp_nonvacuous :
-  tsp_checker [2; 0; 1]%nat = true /\ tsp_checker [2; 0; 2]%nat = false /\ tsp_checker [3; 0; 1]%nat = false.
+  let i := {| tdist := [[0; 3; 4]; [3; 0; 5]; [4; 5; 0]] |} in
+  tsp_checker i [2; 0; 1]%nat = true /\ tsp_checker i [2; 0; 2]%nat = false /\ tsp_checker i [3; 0; 1]%nat = false /\
+  tsp_checker i [1; 0]%nat = false.
 Proof. vm_compute. auto. Qed.
